@@ -17,6 +17,9 @@
 //!   veqr <a> <b>          Vec<Box>.eq on vectors of these objects (element-wise identity)
 //!   enum <shape 1-5> <variant> <a> <b>   value of enum E<shape> built by a run-time chosen constructor, matched with the
 //!                         arms in declaration order and in reverse order (variant tests of every representation)
+//!   resv <hex word>       the word as parameter (tail-recursive -> loop variable, recursive), local, lambda parameter,
+//!                         field, method, method parameter and function name of one program
+//!   cov <name>            one of the deterministic whole programs COV_PROGRAMS (no marker line: the leg ends with the program)
 //!   veq <a> <b>           two Vec<int> built by push (elements comma separated, `-` = empty): a.eq(b), b.eq(a), a.eq(a)
 //!   seq <hexA> <na> <hexB> <nb>   a = "A" :: Str.fromInt(na), b likewise (run-time strings): a == b, a != b, a :: b
 //! stdout: per line  `T <hex text> <hex end|-> W <hex text> <hex end|->`   (TypeScript, WebAssembly)
@@ -31,6 +34,17 @@ use std::time::Duration;
 
 const BATCH: usize = 40;
 const MARK: &str = "@@";
+/// deterministic whole programs that reach code-generation paths the micro-operations do not (see
+/// reports/C04.md, coverage-guided family); expected output is held by the driver
+const COV_PROGRAMS: &[(&str, &str)] = &[
+  ("vecopt", "class Opt(None, Some(int)) {\n  function show(o: Opt): Str = match o { None -> \"none\", Some(v) -> \"some \" :: Str.fromInt(v) }\n}\nclass Main {\n  function main(): unit = {\n    let v = Vec.empty<Opt>();\n    let _ = v.push(Opt.Some(\"1\".toInt()));\n    let _ = v.push(Opt.None());\n    let _ = v.push(Opt.Some(\"3\".toInt()));\n    let _ = Process.println(Opt.show(v.get(1)));\n    let _ = Process.println(Opt.show(v.get(0)));\n    let _ = Process.println(Opt.show(v.pop()));\n    let _ = Process.println(Opt.show(v.pop()));\n    let _ = Process.println(Str.fromInt(v.length()));\n  }\n}\n"),
+  ("ifempty", "class Main {\n  function main(): unit = {\n    let k = \"1\".toInt();\n    let _ = if k == 1 { {} } else { {} };\n    let _ = if k == 2 { {} } else { let _ = Process.println(\"else\"); };\n    let _ = if k == 1 { let _ = Process.println(\"then\"); } else { {} };\n    let _ = Process.println(\"done\");\n  }\n}\n"),
+  ("unitloop", "class Main {\n  function count(n: int): unit = if n <= 0 { {} } else { let _ = Process.println(Str.fromInt(n)); Main.count(n - 1) }\n  function main(): unit = {\n    let _ = Main.count(\"3\".toInt());\n    let _ = Process.println(\"done\");\n  }\n}\n"),
+  ("closures", "class Main {\n  function apply(f: (int) -> int, x: int, n: int): int = if n <= 0 { x } else { Main.apply(f, f(x), n - 1) }\n  function main(): unit = {\n    let k = \"5\".toInt();\n    let f = (x: int) -> x + 1;\n    let g = (x: int) -> x + k;\n    let _ = Process.println(Str.fromInt(Main.apply(f, k, 3)));\n    let _ = Process.println(Str.fromInt(Main.apply(g, k, 2)));\n    let h = if k == 5 { f } else { g };\n    let _ = Process.println(Str.fromInt(h(k)));\n  }\n}\n"),
+  ("refne", "class Box(val v: int) {}\nclass Color(Red, Green, Blue) {}\nclass Main {\n  function cmp(x: Box, y: Box): Str = (if x == y { \"T\" } else { \"F\" }) :: (if x != y { \"T\" } else { \"F\" })\n  function cmpc(x: Color, y: Color): Str = (if x == y { \"T\" } else { \"F\" }) :: (if x != y { \"T\" } else { \"F\" })\n  function pick(k: int): Color = if k == 0 { Color.Red() } else { if k == 1 { Color.Green() } else { Color.Blue() } }\n  function main(): unit = {\n    let k = \"5\".toInt();\n    let a = Box.init(k);\n    let b = Box.init(k);\n    let v = Vec.of<Box>(a);\n    let c = v.get(0);\n    let _ = Process.println(Main.cmp(c, a) :: \" \" :: Main.cmp(c, b) :: \" \" :: Main.cmp(a, b));\n    let _ = Process.println(Main.cmpc(Main.pick(k - 5), Main.pick(k - 5)) :: \" \" :: Main.cmpc(Main.pick(k - 5), Main.pick(k - 4)) :: \" \" :: Main.cmpc(Main.pick(k), Main.pick(k - 3)));\n  }\n}\n"),
+  ("nostr", "class Main {\n  function f(n: int): int = if n <= 0 { 0 } else { n + Main.f(n - 1) }\n  function main(): unit = Process.println(Str.fromInt(Main.f(10)))\n}\n"),
+];
+
 /// enum shapes for the `enum` lines: Int31 + Unboxed; Int31 + two Boxed; only Boxed; Int31 + two
 /// one-pointer-field variants (the first is demoted from Unboxed to Boxed); a single Unboxed variant.
 /// `show` tests the arms in declaration order, `showR` in reverse order.
@@ -171,6 +185,19 @@ fn snippet(line: &str) -> Option<String> {
       s.push_str(&p(format!("E{shape}.showR(o)")));
       Some(s)
     }
+    ["resv", h] => {
+      // a word that is special in JavaScript used wherever samlang takes an identifier: parameter of a
+      // self-tail-recursive function (becomes a loop variable), parameter of a non-inlined recursive
+      // function, local, lambda parameter, field, method, method parameter, function name
+      let w = String::from_utf8(unhex(h)).ok()?;
+      if w.is_empty() || !w.chars().all(|c| c.is_ascii_alphanumeric()) {
+        return None;
+      }
+      Some(format!(
+        "FULL:class Holder(val {w}: int) {{\n  method plus(): int = this.{w} + 1\n  function make({w}: int): Holder = Holder.init({w})\n}}\nclass Meth(val v: int) {{\n  method {w}({w}: int): int = this.v + {w}\n}}\nclass Fn {{\n  function {w}(x: int): int = x * 2\n}}\nclass Main {{\n  function loop({w}: int, n: int): int = if n <= 0 {{ {w} }} else {{ Main.loop({w} + n, n - 1) }}\n  function rec({w}: Str, n: int): Str = if n <= 0 {{ {w} }} else {{ \"<\" :: Main.rec({w}, n - 1) :: \">\" }}\n  function local(x: int): int = {{\n    let {w} = x + \"1\".toInt();\n    let _ = Process.println(Str.fromInt({w}));\n    {w} * {w}\n  }}\n  function lambda(x: int): int = {{\n    let f = ({w}: int) -> {w} + x;\n    f(x) + f(1)\n  }}\n  function main(): unit = {{\n    let five = \"5\".toInt();\n    let _ = Process.println(Str.fromInt(Main.loop(five, \"3\".toInt())));\n    let _ = Process.println(Main.rec(Str.fromInt(five), \"2\".toInt()));\n    let _ = Process.println(Str.fromInt(Fn.{w}(five)));\n    let h = Holder.make(five + 1);\n    let _ = Process.println(Str.fromInt(h.plus()) :: \" \" :: Str.fromInt(h.{w}) :: \" \" :: Str.fromInt(Meth.init(five).{w}(five)));\n    let _ = Process.println(Str.fromInt(Main.local(five)) :: \" \" :: Str.fromInt(Main.lambda(five)));\n    let _ = Process.println(\"{MARK}\");\n  }}\n}}\n"
+      ))
+    }
+    ["cov", name] => COV_PROGRAMS.iter().find(|(n, _)| n == name).map(|(_, src)| format!("FULL:{src}")),
     ["veq", a, b] => {
       let mut s = String::new();
       for (name, elems) in [("a", a), ("b", b)] {
@@ -320,8 +347,8 @@ fn main() {
       answers[i] = "unsupported".to_string();
       continue;
     };
-    let sn = format!("{sn}    let _ = Process.println(\"{MARK}\");\n");
-    if solo || l.starts_with("vec") || l.starts_with("veq") || l.starts_with("enum") || l.starts_with("vecr") || l.starts_with("seq") || l.starts_with("tag") {
+    let sn = if sn.starts_with("FULL:") { sn } else { format!("{sn}    let _ = Process.println(\"{MARK}\");\n") };
+    if solo || l.starts_with("vec") || l.starts_with("veq") || l.starts_with("cov") || l.starts_with("resv") || l.starts_with("enum") || l.starts_with("vecr") || l.starts_with("seq") || l.starts_with("tag") {
       progs.push(Prog { idx: vec![i], source: sn });
     } else {
       let c = cur.get_or_insert_with(|| Prog { idx: vec![], source: String::new() });
@@ -339,7 +366,10 @@ fn main() {
     .par_iter()
     .enumerate()
     .map(|(k, p)| {
-      let src = wrap(&p.source);
+      let src = match p.source.strip_prefix("FULL:") {
+        Some(full) => full.to_string(),
+        None => wrap(&p.source),
+      };
       let n = p.idx.len();
       match compile_program(&[("Main".to_string(), src)], "Main", false) {
         CompileOutcome::Errors(e) => {
